@@ -12,7 +12,7 @@ RULE = ("Hypothesis-generated (objective incl. constant/step/quantised families,
         "eight is pushed to the float resolution of the curve coordinate: eps 1e-17..1e-300 on a kinked 1-D or "
         "coarse 2-D objective) driven by DoGlobalIteration(k) batches and/or Solve; between the calls "
         "a second solver on another problem may be created and stepped, and an observer may ask the solver's evolvent for "
-        "the preimages of stored points and replace the problem object's bound attributes; a shipped static painter is "
+        "the preimages of stored points and replace the problem object's bound attributes; a third of the cases refine (refineSolution=True, DoLocalRefinement between the calls, or both) and the record is compared with the global evaluations; a shipped static painter is "
         "attached in one case of sixteen (its objective probes are dropped from the log); objectives may carry a level of +-1e2..1e7; after EVERY call "
         "the search information is traversed and compared with the Problem.Calculate log, a fresh Evolvent and "
         "the items delivered to the listener. Non-trivial: >=8 trials and at least one trial inserted between "
